@@ -276,6 +276,41 @@ def check_case(case, ctx):
         if cls() == "axis-omitted":
             return [Failure("repeat:shape:axis-omitted", r[1])]
         return [Failure("%s:%s:%s" % (fn, r[0], cls()), r[1])]
+    # the same call with every plain integer argument (axis, shape, repeats, sections, offsets, decimals ...)
+    # handed over as a numpy integer, as numpy.argmax, arange()[k] or a.shape arithmetic produce them
+    def np_ints(x):
+        if isinstance(x, bool) or isinstance(x, numpoly.ndpoly) or isinstance(x, numpy.ndarray):
+            return x, 0
+        if isinstance(x, int):
+            return numpy.int64(x), 1
+        if isinstance(x, (list, tuple)):
+            items = [np_ints(i) for i in x]
+            return type(x)(i for i, _ in items), sum(n for _, n in items)
+        if isinstance(x, dict):
+            items = {k: np_ints(v) for k, v in x.items()}
+            return {k: v for k, (v, _) in items.items()}, sum(n for _, n in items.values())
+        return x, 0
+
+    if not case.get("dtype_pair") and not cls():
+        alt_args, n1 = np_ints(list(args))
+        alt_kw, n2 = np_ints(dict(kw))
+        if n1 + n2:
+            try:
+                with numpy.errstate(all="ignore"):
+                    npf(*np_ints(list(rargs))[0], **np_ints(dict(rkw))[0])  # numpy itself must accept the form
+                numpy_accepts = True
+            except Exception:
+                numpy_accepts = False
+            if numpy_accepts:
+                try:
+                    with numpy.errstate(all="ignore"):
+                        got2 = invoke(rec, alt_args, alt_kw, case.get("spelling", "numpoly"))
+                except Exception as err:
+                    return [Failure("%s:numpy-integer-arguments:exception:%s" % (fn, type(err).__name__), repr(err))]
+                r = same(got2, expected, fn, numpoly)
+                if r:
+                    return [Failure("%s:numpy-integer-arguments:%s" % (fn, r[0]), r[1])]
+                ctx.label("numpy-integer-arguments")
     ctx.label("fn:" + fn)
     if case.get("dtype_pair"):
         ctx.label("division-dtypes:%s" % ("mixed-kinds" if numpy.dtype(case["dtype_pair"][0]).kind != numpy.dtype(case["dtype_pair"][1]).kind else "same-kind"))
